@@ -10,6 +10,7 @@ import Parmcb.Model.TreeCheck
 import Parmcb.Model.Cert
 import Parmcb.Model.TreesAlgo
 import Parmcb.Model.HeapAlgo
+import Parmcb.Model.Mpi
 import Parmcb.Driver.Proto
 /-! correspondence handlers for the graph algorithms (C16, C13, C01/C02 …) -/
 namespace Parmcb.Driver
@@ -371,6 +372,47 @@ def replayTbb (id : String) (gI : Graph) (rev : List Nat) (var : String) (dim : 
     if ret.isSome && some r.weight != ret then return some s!"diff {id} literal-tbb-loop weight model={r.weight} impl={ret}"
     return none
 
+/-- **literal replay of `mcb_sva_signed_mpi`** (rank 0's view, `Model/MpiAlgo.lean` with literal heaps): per phase every
+rank reduces its ceil-stride slice of the signed edges (forest-index order, hidden sets = suffixes) or of the vertices under
+the schedule its stand-in logged; `boost::mpi::reduce` combines the rank results along a tree we cannot observe, so what
+rank 0 emits must be the result of SOME rank whose weight is the minimum over the ranks (with distinct weights: the unique
+minimum).  The supports follow the literal bookkeeping with the emitted cycles. -/
+def replayMpiSigned (id : String) (gI : Graph) (rev : List Nat) (dim : Nat) (sup0 : List (List Nat)) (P : Nat)
+    (rest : List (List String)) (cycI : List (List Nat)) : Option String := Id.run do
+  -- per rank: its schedules in call order
+  let rs := rest.filter (fun l => l.head? == some "rsched")
+  let mut next : List Nat := List.replicate P 0
+  let schedOf := fun (r i : Nat) =>
+    ((rs.filter (fun l => (l.getD 1 "").toNat? == some r))[i]?).bind fun l => parseSched (l.getD 3 "")
+  let sups := phaseSupports .mpi 0 sup0 cycI
+  let mut k := 0
+  for (S, cyc) in sups.zip cycI do
+    match S with
+    | [e] =>
+      match singleEdgeTbbH gI rev e with
+      | some (_, Z) => if Z != cyc then return some s!"diff {id} literal-mpi-loop phase {k} single-edge model=[{showNats Z}] impl=[{showNats cyc}]"
+      | none => return some s!"diff {id} literal-mpi-loop phase {k} single-edge model finds nothing"
+    | _ =>
+      let total := if S.length < gI.n then S.length else gI.n
+      let mut results : List (Int × List Nat) := []
+      for r in List.range P do
+        let lo := sliceLo total P r
+        let some sch := schedOf r (next.getD r 0) | return some s!"diff {id} literal-mpi-loop phase {k} rank {r}: schedule missing"
+        next := next.set r (next.getD r 0 + 1)
+        let srch : Nat → Option Int → Cyc (List Nat) :=
+          if S.length < gI.n then fun j L => hiddenIndexTbbH gI rev S S (lo + j) L
+          else fun j L => searchSignedH gI rev S [] (lo + j) true (lo + j) false L
+        match reduceMin srch sch with
+        | some x => results := results ++ [x]
+        | none => pure ()
+      match results.foldl (fun (m : Option Int) x => match m with | none => some x.1 | some w => some (if x.1 < w then x.1 else w)) none with
+      | none => return some s!"diff {id} literal-mpi-loop phase {k}: no rank finds a cycle"
+      | some w =>
+        if !(results.any fun x => x.1 == w && x.2 == cyc) then
+          return some s!"diff {id} literal-mpi-loop phase {k} impl=[{showNats cyc}] is not a minimum-weight rank result; rank results {results.map fun x => (x.1, x.2)}"
+    k := k + 1
+  return none
+
 /-- C01/C02: the implementation's cycles are replayed through the literal support bookkeeping -/
 def handleExact (c : Case) : String := Id.run do
   match parseGraph c.body with
@@ -410,6 +452,11 @@ def handleExact (c : Case) : String := Id.run do
         if (var == "signed_tbb" || var == "fvs_tbb" || var == "iso_tbb") && (findLine "shim" rest).isSome
             && (var != "signed_tbb" || !evs.isEmpty || dim == 0) then
           match replayTbb c.id gI rev var dim sup0 rest evs cycI (some ret) with
+          | some d => return d
+          | none => lit := 1
+        if var == "mpi_signed" && (findLine "rsched" rest).isSome then
+          let P := match findLine "entry" rest with | some [_, p] => p.toNat?.getD 1 | _ => 1
+          match replayMpiSigned c.id gI rev dim sup0 P rest cycI with
           | some d => return d
           | none => lit := 1
         if var == "signed" && (!evs.isEmpty || dim == 0) then
